@@ -14,8 +14,46 @@ P = 'parameter::Parameter::<T>'
 TW = '<modulator::tweener::Tweener as modulator::Modulator>::update'
 
 
+def ungated(F, R, rule='B.C06.ungated'):
+    """Tween time advances whether or not the owner is paused: in every per-chunk function that both updates a Parameter
+    of `self` and has a freeze gate (clock not ticking, state not advancing, start time pending), the parameter updates
+    come before the gate."""
+    n = 0
+    for b in F.bodies:
+        if b.krate != 'kira':
+            continue
+        ups = [(bb, t) for bb, t in calls_to(b, 'parameter::Parameter::<T>::update', suffix=False)
+               if (describe(b, t['args'][0], depth=3, at=bb)).startswith('&(*self)')]
+        if not ups:
+            continue
+        gates = []
+        for x in range(b.n):
+            t = b.blocks[x]['term']
+            if b.blocks[x]['cleanup']:
+                continue
+            if t['k'] == 'switch' and describe(b, t['op'], depth=2, at=x) == '(*self).ticking':
+                gates.append((x, 'ticking'))
+            if t['k'] == 'call' and (callee_path(t) or '') == 'sound::PlaybackState::is_advancing':
+                gates.append((x, 'is_advancing'))
+        if not gates:
+            continue
+        for bb, t in ups:
+            fld = describe(b, t['args'][0], depth=3, at=bb)
+            # parameters living inside an optional component (spatial data) are updated where that component is unpacked
+            if ' as Some' in fld:
+                continue
+            n += 1
+            late = [g for g, kind in gates if not b.dominates(bb, g)]
+            R.check(not late, rule, '%s|%s' % (b.path, fld.split('.')[-1]),
+                    '%s updates %s only after its freeze gate (%s): while paused the parameter\'s tween clock stands still, so a tween '
+                    'issued during the pause does not start or finish when it is due' % (b.path, fld, [k for g, k in gates if g in late]),
+                    detail={'fn': b.path, 'parameter': fld}, where=b.where(bb))
+    R.floor(rule, n, 8)
+
+
 def run(ctx, R, tier):
     F = ctx.facts('default')
+    ungated(F, R)
     prev(F, R)
     finish(F, R)
     set_rule(F, R)
